@@ -97,6 +97,22 @@ func c10Harness(maxN int) mc.Harness {
 		}
 		eb := x.All("exif-callback", len(exifBehaviours))
 		xb := x.All("xmp-callback", len(xmpBehaviours))
+		c10Run(x, segs, names, eb, xb, 0)
+	}
+}
+
+// c10Source is the reader handed to ScanJPEG: 0 = bytes.Reader, n > 0 = a plain
+// reader that delivers at most n bytes per call.
+func c10Source(b []byte, chunk int) io.Reader {
+	if chunk == 0 {
+		return bytes.NewReader(b)
+	}
+	return &chunkedReader{b: b, k: chunk}
+}
+
+// c10Run scans the JPEG made of segs and compares every callback with the generator's segment table.
+func c10Run(x *mc.Exec, segs []gen.Seg, names []string, eb, xb, chunk int) {
+	{
 		doc, table := gen.BuildJPEG(segs, true)
 		x.InputID = hashBytes(doc.B) ^ uint64(eb)<<8 ^ uint64(xb)
 		x.Note("segments", fmt.Sprint(names))
@@ -275,7 +291,7 @@ func c10Harness(maxN int) mc.Harness {
 			xcb = xmpCB
 		}
 		var err error
-		pi := mc.Guard(func() { err = jpeg.ScanJPEG(bytes.NewReader(doc.B), ecb, xcb) })
+		pi := mc.Guard(func() { err = jpeg.ScanJPEG(c10Source(doc.B, chunk), ecb, xcb) })
 		if pi != nil {
 			failPanic(x, pi, "jpeg.ScanJPEG", doc.B, map[string]string{"segments": fmt.Sprint(names)})
 			return
@@ -363,6 +379,35 @@ func c10Harness(maxN int) mc.Harness {
 	}
 }
 
+// c10Edge places a segment at every distance from the end of the scanner's 4096-byte
+// buffer: [filler of every length] [target] [Exif] ... and checks the same framing facts.
+func c10Edge(fillers []int) mc.Harness {
+	minII := gen.EncodeTIFF(gen.MinimalRecord(), gen.CanonicalLayout(), binary.LittleEndian, gen.AllDirs)
+	targets := []c10Sym{
+		{"xmp-100", func(*mc.Exec) gen.Seg { return gen.SegXMP(c10Packet(100)) }},
+		{"exif-min-II", func(*mc.Exec) gen.Seg { return gen.SegExif(minII) }},
+		{"near-xmp", func(*mc.Exec) gen.Seg { return gen.SegNearXMP() }},
+		{"near-exif", func(*mc.Exec) gen.Seg { return gen.SegNearExif() }},
+		{"xmp-ext", func(*mc.Exec) gen.Seg { return gen.SegXMPExt() }},
+		{"app1-ff-run", func(*mc.Exec) gen.Seg { return gen.SegFFRun(0xE1) }},
+		{"xmp-0", func(*mc.Exec) gen.Seg { return gen.SegXMP(c10Packet(0)) }},
+		{"com", func(*mc.Exec) gen.Seg { return gen.SegCOM() }},
+	}
+	combos := [][2]int{{0, 0}, {4, 0}, {3, 4}, {0, 2}} // (exif-callback, xmp-callback)
+	chunks := []int{0, 4096, 1000, 33}
+	return func(x *mc.Exec) {
+		pristine()
+		fl := fillers[x.All("filler-length", len(fillers))]
+		t := targets[x.All("target", len(targets))]
+		c := combos[x.All("callbacks", len(combos))]
+		ch := chunks[x.All("source-chunk", len(chunks))]
+		segs := []gen.Seg{gen.SegAPPn(14, fl), t.mk(x), gen.SegExif(minII), gen.SegXMP(c10Packet(100))}
+		names := []string{fmt.Sprintf("app14-%d", fl), t.name, "exif-min-II", "xmp"}
+		x.Note("source-chunk", fmt.Sprint(ch))
+		c10Run(x, segs, names, c[0], c[1], ch)
+	}
+}
+
 func init() {
 	register(&mc.Check{Property: "C10", Setup: defaultLogger,
 		Spaces: func(tier string) []mc.Space {
@@ -370,7 +415,16 @@ func init() {
 			if tier == "thorough" {
 				n = 3
 			}
-			return []mc.Space{{Name: "marker-sequences", H: c10Harness(n), NoLevels: true, Isolate: true, SplitDepth: 2,
+			var fillers []int // the target's marker lands at stream offset 6+filler
+			for fl := 0; fl <= 8300; fl++ {
+				d := (6 + fl) % 4096
+				if tier == "thorough" || d >= 4096-80 || d <= 8 || fl%97 == 0 {
+					fillers = append(fillers, fl)
+				}
+			}
+			edge := mc.Space{Name: "buffer-edge-positions", H: c10Edge(fillers), NoLevels: true, Isolate: true, SplitDepth: 1,
+				Rule: fmt.Sprintf("[APP14 filler of length L][target][Exif][XMP] for %d filler lengths in 0..8300 (quick: every L that puts the target's marker within 80 bytes before or 8 after a multiple of 4096, and every 97th; thorough: all) x 8 targets (XMP, empty XMP, Exif, near-Exif, near-XMP, XMP extension, APP1 0xFF run, COM) x 4 callback pairs x 4 source deliveries (bytes.Reader; plain reader with chunks of 4096, 1000, 33): every look-ahead of the scanner is exercised at every distance from the end of its buffer", len(fillers))}
+			return []mc.Space{edge, {Name: "marker-sequences", H: c10Harness(n), NoLevels: true, Isolate: true, SplitDepth: 2,
 				Rule: fmt.Sprintf("every sequence of <= %d segments over a 18-symbol alphabet (JFIF, JFXX, Exif min/rich both byte orders, XMP with 7 packet lengths incl. 0, 4096+-1, 65502, XMP extension, ICC, Photoshop, 0xFF runs, nested SOI/EOI, near-Exif, near-XMP, COM, DRI, SOF2, 5000-byte APPn, ignored segments (APP2, COM, non-Exif APP1, APP13) of length 0xFFFF, 0xFFFE, 0xFFFD, 0x8000, 0x7FFF, 0x100, 0xFF filled with marker-looking structure) followed by DQT SOF0 DHT SOS entropy EOI x 6 Exif-callback behaviours x 7 XMP-callback behaviours; trivial = no metadata segment", n)}}
 		},
 		Assumptions: []string{"expected callback arguments and payloads come from the generator's own segment table", "Exif callbacks consume exactly their declared length (the statement's premise); under-consuming Exif callbacks are not explored"},
